@@ -184,3 +184,156 @@ pub fn redo_cmd(rng: &mut Rng, prog: &str, targets: &[String], max_j: u64, log_p
         start_step: 0,
     }
 }
+
+// ---------------------------------------------------------------- histories
+
+/// Generator-side state while a history is drawn.
+pub struct HistState {
+    pub src_ver: Vec<u32>,
+    pub rule_ver: Vec<u32>,
+    pub flags: Vec<(String, bool)>,
+}
+
+#[derive(Clone, Debug)]
+pub struct HistParams {
+    pub steps: usize,
+    pub edit_rule_pm: u64,
+    pub remove_pm: u64,
+    pub flag_pm: u64,
+    pub forced_redo_pm: u64,
+    pub max_j: u64,
+    pub log_pm: u64,
+}
+
+/// Add `n_fail` failing-capable targets: they declare a flag file and exit
+/// non-zero while it is on.
+pub fn add_fail_flags(rng: &mut Rng, g: &mut Graph, n_fail: usize) -> Vec<(String, bool)> {
+    let mut flags = Vec::new();
+    let mut idx: Vec<usize> = (0..g.targets.len()).collect();
+    rng.shuffle(&mut idx);
+    for (k, i) in idx.into_iter().take(n_fail).enumerate() {
+        let flag = format!("f{}", k);
+        g.files.push((flag.clone(), b"0\n".to_vec()));
+        let partial = rng.chance(1, 2);
+        let code = *rng.pick(&[1, 2, 7, 42]);
+        let r = &mut g.rules[i].1;
+        // after the ifchange statements so that dependencies are built first,
+        // or before them, both occur
+        let at = if rng.chance(1, 2) { r.stmts.len() } else { 0 };
+        r.stmts.insert(
+            at,
+            Stmt::FailIf {
+                flag: flag.clone(),
+                code,
+                partial,
+            },
+        );
+        r.stmts.insert(at, Stmt::IfChange(vec![flag.clone()]));
+        g.deps[i].push(flag.clone());
+        flags.push((flag, false));
+    }
+    flags
+}
+
+pub fn gen_history(rng: &mut Rng, g: &Graph, sc: &mut Scenario, st: &mut HistState, p: &HistParams) {
+    // always start with a build so that later steps have something to disturb
+    let first_t = if rng.chance(3, 4) {
+        g.top()
+    } else {
+        rng.pick(&g.targets).clone()
+    };
+    let first_prog = if rng.chance(1, 2) { "redo" } else { "redo-ifchange" };
+    sc.history.push(Step::Cmds(vec![redo_cmd(
+        rng,
+        first_prog,
+        &[first_t],
+        p.max_j,
+        p.log_pm,
+    )]));
+    let mut since_build = 0;
+    for k in 0..p.steps {
+        let last = k + 1 == p.steps;
+        let r = rng.below(1000);
+        let mut acc = 0;
+        let mut pick = |pm: u64| -> bool {
+            acc += pm;
+            r < acc
+        };
+        if !last && since_build < 3 && pick(300) {
+            let i = rng.below(g.sources.len() as u64) as usize;
+            st.src_ver[i] += 1;
+            sc.history.push(Step::Write {
+                path: g.sources[i].clone(),
+                bytes: source_content(&g.sources[i], st.src_ver[i]),
+            });
+            since_build += 1;
+        } else if !last && since_build < 3 && pick(p.edit_rule_pm) {
+            let i = rng.below(g.targets.len() as u64) as usize;
+            st.rule_ver[i] += 1;
+            let mut rule = current_rule(sc, &g.rules[i].0).unwrap_or_else(|| g.rules[i].1.clone());
+            rule.version = st.rule_ver[i];
+            sc.history.push(Step::SetRule {
+                path: g.rules[i].0.clone(),
+                rule: Some(rule),
+            });
+            since_build += 1;
+        } else if !last && since_build < 3 && pick(p.remove_pm) {
+            let t = rng.pick(&g.targets).clone();
+            sc.history.push(Step::Remove { path: t });
+            since_build += 1;
+        } else if !last && since_build < 3 && !st.flags.is_empty() && pick(p.flag_pm) {
+            let i = rng.below(st.flags.len() as u64) as usize;
+            st.flags[i].1 = !st.flags[i].1;
+            sc.history.push(Step::Write {
+                path: st.flags[i].0.clone(),
+                bytes: if st.flags[i].1 { b"1\n".to_vec() } else { b"0\n".to_vec() },
+            });
+            since_build += 1;
+        } else {
+            let forced = rng.chance(p.forced_redo_pm, 1000);
+            let t = if rng.chance(1, 2) {
+                g.top()
+            } else {
+                rng.pick(&g.targets).clone()
+            };
+            let mut ts = vec![t];
+            if rng.chance(1, 5) {
+                ts.push(rng.pick(&g.targets).clone());
+            }
+            sc.history.push(Step::Cmds(vec![redo_cmd(
+                rng,
+                if forced { "redo" } else { "redo-ifchange" },
+                &ts,
+                p.max_j,
+                p.log_pm,
+            )]));
+            since_build = 0;
+        }
+    }
+    if since_build > 0 {
+        sc.history.push(Step::Cmds(vec![redo_cmd(
+            rng,
+            "redo-ifchange",
+            &[g.top()],
+            p.max_j,
+            p.log_pm,
+        )]));
+    }
+}
+
+/// The latest version of a rule as of the end of the history drawn so far.
+pub fn current_rule(sc: &Scenario, path: &str) -> Option<Rule> {
+    let mut cur = sc
+        .rules
+        .iter()
+        .find(|(p, _)| p == path)
+        .map(|(_, r)| r.clone());
+    for s in &sc.history {
+        if let Step::SetRule { path: p, rule } = s {
+            if p == path {
+                cur = rule.clone();
+            }
+        }
+    }
+    cur
+}
